@@ -1,11 +1,378 @@
 /-
-  C01 — property theorems (placeholder: first theorem only; see BklProofs/Lemmas for helpers)
+  C01 — "layer merge follows the documented merge rules".
+
+  `merge dst src` (Bkl/Merge.lean, mirrors merge.go): maps merge by key, lists concatenate,
+  scalars replace, with the directives `$delete`, `$replace`, `$match`, `$value`, `$required`.
+
+  Property theorems only; helper lemmas are in BklProofs/Lemmas/{Fields,Merge,MergeList,MergeWF}.
+  Auxiliary definitions used in statements (all in BklProofs/Lemmas/Merge.lean):
+    `Val.isScalar`  — bool / int / flt / str
+    `plainEntry`    — a list-patch entry carrying no list directive
 -/
-import Bkl
+import BklProofs.Lemmas.MergeWF
 namespace Bkl
 
-/-- A null child changes nothing under a map or a list. -/
-theorem C01_null_child_map (d : Fields) : merge (.map d) .null = .ok (.map d) := by
-  unfold merge; rfl
+/-! ## 1. a null child changes nothing -/
+
+theorem C01_null_child_map (d : Fields) : merge (.map d) .null = .ok (.map d) :=
+  merge_map_null d
+
+theorem C01_null_child_list (d : List Val) : merge (.list d) .null = .ok (.list d) :=
+  merge_list_null d
+
+theorem C01_null_child :
+    (∀ d : Fields, merge (.map d) .null = .ok (.map d)) ∧
+    (∀ d : List Val, merge (.list d) .null = .ok (.list d)) :=
+  ⟨merge_map_null, merge_list_null⟩
+
+/-! ## 2. a null parent is replaced by the child -/
+
+theorem C01_null_parent (s : Val) : merge .null s = .ok s :=
+  merge_null s
+
+/-! ## 3. scalars: the child replaces the parent, an identical value is rejected -/
+
+theorem C01_scalar (dst src : Val) (h : dst.isScalar = true) :
+    merge dst src = if src == dst then .error .uselessOverride else .ok src :=
+  merge_scalar dst src h
+
+example : (Val.str "a").isScalar = true ∧ (Val.int 3).isScalar = true ∧
+    (Val.bool false).isScalar = true ∧ (Val.flt "1.5").isScalar = true := by decide
+
+/-- rejected iff same value -/
+theorem C01_scalar_reject_iff (dst src : Val) (h : dst.isScalar = true) :
+    (∃ e, merge dst src = .error e) ↔ src = dst := by
+  rw [C01_scalar dst src h]
+  by_cases hs : src = dst
+  · subst hs; simp
+  · have : (src == dst) = false := by simpa using hs
+    simp [this, hs]
+
+example : (Val.int 3).isScalar = true := rfl
+
+/-! ## 4. kind mismatches -/
+
+/-- scalar or list over a non-empty map -/
+theorem C01_kind_mismatch_map (d : Fields) (src : Val) (hd : d ≠ [])
+    (hs : src.isScalar = true ∨ src.isList = true) :
+    merge (.map d) src = .error .invalidType := by
+  have h1 : src.isMap = false := by
+    cases src <;> simp_all [Val.isScalar, Val.isList, Val.isMap]
+  have h2 : src.isNull = false := by
+    cases src <;> simp_all [Val.isScalar, Val.isList, Val.isNull]
+  rw [merge_map_other d src h1 h2]
+  cases d with
+  | nil => exact absurd rfl hd
+  | cons a tl => rfl
+
+example : ([("a", Val.int 1)] : Fields) ≠ [] ∧
+    ((Val.str "x").isScalar = true ∨ (Val.str "x").isList = true) := by decide
+
+/-- scalar or map over a list -/
+theorem C01_kind_mismatch_list (d : List Val) (src : Val)
+    (hs : src.isScalar = true ∨ src.isMap = true) :
+    merge (.list d) src = .error .invalidType := by
+  have h1 : src.isList = false := by
+    cases src <;> simp_all [Val.isScalar, Val.isList, Val.isMap]
+  have h2 : src.isNull = false := by
+    cases src <;> simp_all [Val.isScalar, Val.isMap, Val.isNull]
+  exact merge_list_other d src h1 h2
+
+example : (Val.map [("a", .int 1)]).isScalar = true ∨ (Val.map [("a", .int 1)]).isMap = true := by
+  decide
+
+/-- anything that is not a map and not null over an empty map yields the child -/
+theorem C01_kind_mismatch_empty_map (src : Val) (h1 : src.isMap = false)
+    (h2 : src.isNull = false) : merge (.map []) src = .ok src := by
+  rw [merge_map_other [] src h1 h2]; rfl
+
+example : (Val.list [.int 1]).isMap = false ∧ (Val.list [.int 1]).isNull = false := by decide
+
+/-! ## 5. `$replace: true` in a map patch -/
+
+theorem C01_replace_true (d s : Fields) (h : fhasBool s "$replace" true = true) :
+    merge (.map d) (.map s) = .ok (.map (fdel s "$replace")) := by
+  rw [merge_map_map, mergeMapMap_replace h]
+
+example : fhasBool [("$replace", .bool true), ("a", .int 1)] "$replace" true = true := by decide
+
+/-! ## 6. maps merge key by key -/
+
+theorem C01_map_by_key {d s : Fields} {r : Val} (hd : Fields.SortedKeys d)
+    (hs : Fields.SortedKeys s) (hrep : fhasBool s "$replace" true = false)
+    (h : merge (.map d) (.map s) = .ok r) :
+    ∃ rm, r = .map rm ∧ Fields.SortedKeys rm ∧ ∀ k,
+      match fget s k with
+      | none => fget rm k = fget d k
+      | some v =>
+        if v.toStr = "$delete" then (fget d k ≠ none ∧ fget rm k = none)
+        else match fget d k with
+          | none => fget rm k = some v
+          | some e => ∃ r', merge e v = .ok r' ∧ fget rm k = some r' := by
+  rw [merge_map_map, mergeMapMap_noreplace hrep] at h
+  cases hmf : mergeFields d s with
+  | error e => rw [hmf] at h; cases h
+  | ok rm =>
+    rw [hmf] at h; cases h
+    exact ⟨rm, rfl, mergeFields_sorted hd hmf, mergeFields_spec hs hmf⟩
+
+example : Fields.SortedKeys [("a", .int 1), ("b", .int 2)] ∧
+    Fields.SortedKeys [("b", .str "$delete"), ("c", .int 3)] ∧
+    fhasBool [("b", .str "$delete"), ("c", .int 3)] "$replace" true = false ∧
+    merge (.map [("a", .int 1), ("b", .int 2)]) (.map [("b", .str "$delete"), ("c", .int 3)])
+      = .ok (.map [("a", .int 1), ("c", .int 3)]) := by
+  refine ⟨by decide, by decide, by decide, ?_⟩
+  simp [merge, mergeMapMap, mergeFields, fhasBool, fget, fset, fdel, fhas, Val.toStr]
+  rfl
+
+theorem C01_map_reject_iff {d s : Fields} (hs : Fields.SortedKeys s)
+    (hrep : fhasBool s "$replace" true = false) :
+    (∃ err, merge (.map d) (.map s) = .error err) ↔
+      ∃ k v, fget s k = some v ∧
+        ((v.toStr = "$delete" ∧ fget d k = none) ∨
+         (v.toStr ≠ "$delete" ∧ ∃ e, fget d k = some e ∧ ∃ err, merge e v = .error err)) := by
+  rw [merge_map_map, mergeMapMap_noreplace hrep]
+  have := mergeFields_error_iff (d := d) hs
+  unfold badEntry at this
+  rw [← this]
+  cases mergeFields d s with
+  | error e => simp [Except.map]
+  | ok rm => simp [Except.map]
+
+example : Fields.SortedKeys [("b", .str "$delete"), ("c", .int 3)] ∧
+    fhasBool [("b", .str "$delete"), ("c", .int 3)] "$replace" true = false := by decide
+
+/-! ## 7. lists -/
+
+/-- plain entries are appended (after the parent's `$required` markers are dropped) -/
+theorem C01_list_concat (d s : List Val) (h : s.all plainEntry = true) :
+    merge (.list d) (.list s) =
+      .ok (.list (d.filter (fun x => !(x == Val.str "$required")) ++ s)) := by
+  rw [merge_list_list,
+    mergeListList_no_replace d (all_plain_any_replace h) (all_plain_no_marker h)]
+  have := mergeEntries_plain_append (dropRequired d) [] h
+  rw [List.append_nil] at this
+  rw [this, mergeEntries_nil]
+  rfl
+
+example : [Val.int 1, .str "x", .map [("a", .int 2)], .list [.str "$replace"]].all plainEntry
+    = true := by decide
+
+/-- a `"$replace"` string entry: the child list (minus the marker) replaces the parent list -/
+theorem C01_list_replace_string (d s : List Val) (h : Val.str "$replace" ∈ s) :
+    merge (.list d) (.list s) =
+      .ok (.list (s.filter (fun x => !(x == Val.str "$replace")))) := by
+  rw [merge_list_list]
+  apply mergeListList_replace_string
+  rw [List.any_eq_true]
+  exact ⟨_, h, by simp⟩
+
+example : Val.str "$replace" ∈ [Val.int 1, .str "$replace", .int 2] := by decide
+
+/-- a `{$replace: true}` entry: the child list (minus the marker) replaces the parent list -/
+theorem C01_list_replace_marker (d pre post : List Val) (hpre : pre.all plainEntry = true)
+    (hpost : post.all plainEntry = true) :
+    merge (.list d) (.list (pre ++ [Val.map [("$replace", .bool true)]] ++ post)) =
+      .ok (.list (pre ++ post)) := by
+  have hmk : fhasBool [("$replace", Val.bool true)] "$replace" true = true := by decide
+  have hany : (pre ++ [Val.map [("$replace", .bool true)]] ++ post).any
+      (fun x => x == Val.str "$replace") = false := by
+    rw [List.any_append, List.any_append, all_plain_any_replace hpre, all_plain_any_replace hpost]
+    rfl
+  have hhas : hasListMapBool (pre ++ [Val.map [("$replace", .bool true)]] ++ post)
+      "$replace" true = true := by
+    rw [hasListMapBool_eq, List.any_append, List.any_append]
+    simp [isMarker, hmk]
+  have hfold : List.foldlM (popStep "$replace" true) []
+      (pre ++ [Val.map [("$replace", .bool true)]] ++ post) = .ok (pre ++ post) := by
+    rw [foldlM_popStep_append, foldlM_popStep_append,
+      foldlM_popStep_plain pre [] (fun x hx =>
+        plainEntry_not_marker (List.all_eq_true.1 hpre x hx))]
+    simp only [List.nil_append]
+    rw [foldlM_cons, popStep_marker_ok pre hmk (by decide)]
+    simp only [foldlM_nil]
+    rw [foldlM_popStep_plain post pre (fun x hx =>
+        plainEntry_not_marker (List.all_eq_true.1 hpost x hx))]
+  rw [merge_list_list, mergeListList_no_string d hany, popListMapBool_eq, hhas, hfold]
+  rfl
+
+example : [Val.int 1].all plainEntry = true ∧ [Val.str "x", .map [("k", .null)]].all plainEntry
+    = true := by decide
+
+/-- a `{$delete: pat}` entry removes every parent entry matching `pat`; none is an error -/
+theorem C01_list_delete (d : List Val) (pat : Val) :
+    merge (.list d) (.list [Val.map [("$delete", pat)]]) =
+      if (d.filter (fun x => !(x == Val.str "$required"))).any (fun v => matchV v pat) then
+        .ok (.list ((d.filter (fun x => !(x == Val.str "$required"))).filter
+              (fun v => !matchV v pat)))
+      else .error .uselessOverride := by
+  have hany : [Val.map [("$delete", pat)]].any (fun x => x == Val.str "$replace") = false := rfl
+  have hhas : hasListMapBool [Val.map [("$delete", pat)]] "$replace" true = false := by
+    simp [hasListMapBool, fhasBool, fget]
+  have h1 : fget [("$delete", pat)] "$delete" = some pat := by simp [fget]
+  have h2 : (fdel [("$delete", pat)] "$delete").length = 0 := by simp [fdel]
+  rw [merge_list_list, mergeListList_no_replace d hany hhas,
+    mergeEntries_delete (dropRequired d) [] h1 h2]
+  unfold dropRequired
+  generalize d.filter (fun x => !(x == Val.str "$required")) = d'
+  cases d'.any (fun v => matchV v pat) with
+  | true => simp only [if_true, mergeEntries_nil]
+  | false => rfl
+
+/-- a `{$match: m, $value: val}` entry merges `val` into every parent entry matching `m` -/
+theorem C01_list_match_value (d : List Val) (m val : Val) :
+    merge (.list d) (.list [Val.map [("$match", m), ("$value", val)]]) =
+      if (d.filter (fun x => !(x == Val.str "$required"))).any (fun e => matchV e m) then
+        Except.map Val.list
+          ((d.filter (fun x => !(x == Val.str "$required"))).mapM
+            (fun e => if matchV e m then merge e val else pure e))
+      else .error .noMatchFound := by
+  have hany : [Val.map [("$match", m), ("$value", val)]].any
+      (fun x => x == Val.str "$replace") = false := rfl
+  have hhas : hasListMapBool [Val.map [("$match", m), ("$value", val)]] "$replace" true
+      = false := by simp [hasListMapBool, fhasBool, fget]
+  have h1 : fget [("$match", m), ("$value", val)] "$delete" = none := by simp [fget]
+  have h2 : fget [("$match", m), ("$value", val)] "$match" = some m := by simp [fget]
+  have h3 : fget (fdel [("$match", m), ("$value", val)] "$match") "$value" = some val := by
+    simp [fget, fdel]
+  have h4 : (fdel (fdel [("$match", m), ("$value", val)] "$match") "$value").length = 0 := by
+    simp [fdel]
+  rw [merge_list_list, mergeListList_no_replace d hany hhas,
+    mergeEntries_match_value (dropRequired d) [] h1 h2 h3 h4]
+  unfold dropRequired matchStep
+  generalize d.filter (fun x => !(x == Val.str "$required")) = d'
+  cases hm : d'.any (fun e => matchV e m) with
+  | false =>
+    have hid : List.mapM (fun e => if matchV e m = true then merge e val else pure e) d'
+        = .ok d' := by
+      apply mapM_id_of_forall
+      intro x hx
+      have : matchV x m = false := by
+        have := List.any_eq_false.1 hm x hx
+        simpa using this
+      simp [this, R_pure]
+    rw [hid]; rfl
+  | true =>
+    simp only [if_true]
+    cases List.mapM (fun e => if matchV e m = true then merge e val else pure e) d' with
+    | error e => rfl
+    | ok d'' => simp only [mergeEntries_nil]; rfl
+
+example : Fields.SortedKeys [("$match", Val.int 1), ("$value", .int 2)] := by decide
+
+/-- a `$delete` entry carrying another key is rejected with `extraKeys` -/
+theorem C01_list_extra_keys_delete (d pre post : List Val) (kvs : Fields) (pat : Val)
+    (hpre : pre.all plainEntry = true)
+    (hpost1 : Val.str "$replace" ∉ post) (hpost2 : hasListMapBool post "$replace" true = false)
+    (hdel : fget kvs "$delete" = some pat) (hextra : (fdel kvs "$delete").length > 0) :
+    merge (.list d) (.list (pre ++ Val.map kvs :: post)) = .error .extraKeys := by
+  apply list_entry_extra d pre post kvs hpre hpost1 hpost2
+  · intro d'; exact mergeEntries_delete_extra d' post hdel hextra
+  · intro _
+    have : fget (fdel kvs "$replace") "$delete" = some pat := by
+      rw [fget_fdel_ne _ _ _ (by decide)]; exact hdel
+    exact length_pos_of_fget this
+
+example : [Val.int 1].all plainEntry = true ∧ Val.str "$replace" ∉ [Val.int 2] ∧
+    hasListMapBool [Val.int 2] "$replace" true = false ∧
+    fget [("$delete", Val.int 1), ("x", .int 2)] "$delete" = some (.int 1) ∧
+    (fdel [("$delete", Val.int 1), ("x", .int 2)] "$delete").length > 0 := by decide
+
+/-- a `$match` + `$value` entry carrying a third key is rejected with `extraKeys` -/
+theorem C01_list_extra_keys_match (d pre post : List Val) (kvs : Fields) (m val : Val)
+    (hpre : pre.all plainEntry = true)
+    (hpost1 : Val.str "$replace" ∉ post) (hpost2 : hasListMapBool post "$replace" true = false)
+    (hdel : fget kvs "$delete" = none)
+    (hm : fget kvs "$match" = some m) (hv : fget kvs "$value" = some val)
+    (hextra : (fdel (fdel kvs "$match") "$value").length > 0) :
+    merge (.list d) (.list (pre ++ Val.map kvs :: post)) = .error .extraKeys := by
+  apply list_entry_extra d pre post kvs hpre hpost1 hpost2
+  · intro d'
+    have hv' : fget (fdel kvs "$match") "$value" = some val := by
+      rw [fget_fdel_ne _ _ _ (by decide)]; exact hv
+    exact mergeEntries_match_value_extra d' post hdel hm hv' hextra
+  · intro _
+    have : fget (fdel kvs "$replace") "$match" = some m := by
+      rw [fget_fdel_ne _ _ _ (by decide)]; exact hm
+    exact length_pos_of_fget this
+
+example : ([] : List Val).all plainEntry = true ∧ Val.str "$replace" ∉ ([] : List Val) ∧
+    hasListMapBool [] "$replace" true = false ∧
+    fget [("$match", Val.int 1), ("$value", .int 2), ("x", .int 3)] "$delete" = none ∧
+    fget [("$match", Val.int 1), ("$value", .int 2), ("x", .int 3)] "$match" = some (.int 1) ∧
+    fget [("$match", Val.int 1), ("$value", .int 2), ("x", .int 3)] "$value" = some (.int 2) ∧
+    (fdel (fdel [("$match", Val.int 1), ("$value", .int 2), ("x", .int 3)] "$match")
+      "$value").length > 0 := by decide
+
+/-- a `{$replace: true, …extra}` entry anywhere in the patch is rejected with `extraKeys` -/
+theorem C01_list_extra_keys_replace (d s : List Val) (kvs : Fields)
+    (hstr : Val.str "$replace" ∉ s) (hmem : Val.map kvs ∈ s)
+    (hrep : fhasBool kvs "$replace" true = true) (hextra : (fdel kvs "$replace").length > 0) :
+    merge (.list d) (.list s) = .error .extraKeys := by
+  have hany : s.any (fun x => x == Val.str "$replace") = false := by
+    rw [List.any_eq_false]
+    intro x hx hb
+    exact hstr ((eq_of_beq hb) ▸ hx)
+  have hhas : hasListMapBool s "$replace" true = true := by
+    rw [hasListMapBool_eq, List.any_eq_true]
+    exact ⟨_, hmem, hrep⟩
+  rw [merge_list_list, mergeListList_no_string d hany, popListMapBool_eq, hhas,
+    foldlM_popStep_extra [] hmem hrep hextra]
+  rfl
+
+example : Val.str "$replace" ∉ [Val.int 1, .map [("$replace", .bool true), ("a", .int 1)]] ∧
+    Val.map [("$replace", .bool true), ("a", .int 1)] ∈
+      [Val.int 1, .map [("$replace", .bool true), ("a", .int 1)]] ∧
+    fhasBool [("$replace", .bool true), ("a", .int 1)] "$replace" true = true ∧
+    (fdel [("$replace", Val.bool true), ("a", .int 1)] "$replace").length > 0 := by decide
+
+/-! ## 8. well-formedness is preserved -/
+
+theorem C01_wf {d s r : Val} (hd : Val.WF d) (hs : Val.WF s) (h : merge d s = .ok r) :
+    Val.WF r :=
+  merge_wf hd hs h
+
+example : Val.WF (.map [("a", .int 1), ("b", .map [("x", .int 2)])]) ∧
+    Val.WF (.map [("b", .map [("x", .int 5)]), ("c", .int 3)]) ∧
+    merge (.map [("a", .int 1), ("b", .map [("x", .int 2)])])
+        (.map [("b", .map [("x", .int 5)]), ("c", .int 3)])
+      = .ok (.map [("a", .int 1), ("b", .map [("x", .int 5)]), ("c", .int 3)]) := by
+  refine ⟨by decide, by decide, ?_⟩
+  simp [merge, mergeMapMap, mergeFields, fhasBool, fget, fset, Val.toStr]
+  rfl
+
+/-! ## 9. a key that no layer mentions keeps the base value -/
+
+theorem C01_chain_frame (b : Fields) (layers : List Val) (k : String) (res : Val)
+    (hl : ∀ x ∈ layers, ∃ l, x = Val.map l ∧ fhasBool l "$replace" true = false ∧
+      fget l k = none)
+    (h : mergeChain (.map b :: layers) = .ok res) :
+    ∃ r, res = .map r ∧ fget r k = fget b k := by
+  change List.foldlM merge (Val.map b) layers = .ok res at h
+  induction layers generalizing b with
+  | nil => rw [foldlM_nil] at h; cases h; exact ⟨b, rfl, rfl⟩
+  | cons x tl ih =>
+    obtain ⟨l, rfl, hrep, hk⟩ := hl x List.mem_cons_self
+    rw [foldlM_cons, merge_map_map, mergeMapMap_noreplace hrep] at h
+    cases hmf : mergeFields b l with
+    | error e => rw [hmf] at h; cases h
+    | ok rm =>
+      rw [hmf] at h
+      obtain ⟨r, hr, hg⟩ := ih rm (fun y hy => hl y (List.mem_cons_of_mem _ hy)) h
+      exact ⟨r, hr, by rw [hg, mergeFields_frame hk hmf]⟩
+
+example : (∀ x ∈ [Val.map [("b", .int 2)], Val.map [("b", .int 3), ("c", .int 4)]],
+      ∃ l, x = Val.map l ∧ fhasBool l "$replace" true = false ∧ fget l "a" = none) ∧
+    mergeChain [.map [("a", .int 1)], .map [("b", .int 2)], .map [("b", .int 3), ("c", .int 4)]]
+      = .ok (.map [("a", .int 1), ("b", .int 3), ("c", .int 4)]) := by
+  constructor
+  · intro x hx
+    simp only [List.mem_cons, List.not_mem_nil, or_false] at hx
+    rcases hx with rfl | rfl
+    · exact ⟨_, rfl, by decide, by decide⟩
+    · exact ⟨_, rfl, by decide, by decide⟩
+  · simp [mergeChain, List.foldlM, merge, mergeMapMap, mergeFields, fhasBool, fget, fset,
+      Val.toStr]
+    rfl
 
 end Bkl
